@@ -140,6 +140,12 @@ def ctor_contracts():
              ensures=['self.subspec is subspec', "self._iter_stack is kw__iter_stack", "self.sentinel is kw_sentinel"]),
         Case('bogus', args={'self': 'inst:streaming.Iter', 'subspec': 'ref', 'kwargs': 'kw:bogus'}, ensures=['False'], raises={'TypeError': 'True'},
              may_raise=['BaseException'], raise_only=True)]))
+    stores('core.UnregisteredTarget.__init__', 'core.UnregisteredTarget', [('op', 'op'), ('target_type', 'target_type'), ('type_map', 'type_map'), ('path', 'path')],
+           {'op': 'ref', 'target_type': 'ref', 'type_map': 'ref', 'path': 'ref'},
+           ['len(self.args) == 4', 'self.args[0] is op', 'self.args[1] is target_type', 'self.args[2] is type_map', 'self.args[3] is path'])
+    stores('matching.TypeMatchError.__init__', 'matching.TypeMatchError', [], {'actual': 'ref', 'expected': 'ref'},
+           ['len(self.args) == 3', "self.args[0] == 'expected type {0.__name__}, not {1.__name__}'", 'self.args[1] is expected', 'self.args[2] is actual'])
+    stores('core.Vars.__init__', 'core.Vars', [('base', 'base'), ('defaults', 'kw')], {'base': 'dict', 'kw': 'kw:a'})
     cs.append(Post('core._ArgValuator.__init__', cases=[
         Case('any', args={'self': 'inst:core._ArgValuator'}, ghosts={'k': 'ref'}, ensures=['k not in self.cache'])]))
     return cs
